@@ -14,6 +14,7 @@ import (
 	"os/exec"
 	"sort"
 	"strings"
+	"sync"
 
 	"github.com/consensys/gnark-crypto/ecc"
 	"github.com/consensys/gnark/constraint"
@@ -224,7 +225,7 @@ func targets(quick bool) []target {
 		n string
 		o []frontend.CompileOption
 	}{{"default", nil}, {"capacity", []frontend.CompileOption{frontend.WithCapacity(1 << 10)}}, {"compress2", []frontend.CompileOption{frontend.WithCompressThreshold(2)}}}
-	for _, f := range families() {
+	for _, f := range append(families(), siblingFamilies()...) {
 		f := f
 		for _, b := range []string{circ.R1CS, circ.SCS} {
 			if f.scsOnly && b == circ.R1CS {
@@ -232,6 +233,9 @@ func targets(quick bool) []target {
 			}
 			for _, os := range optSets {
 				if os.n == "compress2" && b == circ.SCS {
+					continue
+				}
+				if os.n != "default" && strings.HasPrefix(f.name, "sib:") {
 					continue
 				}
 				t = append(t, target{name: f.name + "/" + b + "/" + os.n, builder: b, mk: func() frontend.Circuit { return circ.New(f.nP, f.nS, f.def) }, opts: append(append([]frontend.CompileOption(nil), f.opts...), os.o...)})
@@ -299,14 +303,18 @@ func firstLine(s string) string {
 func main() {
 	c := vh.New("C11")
 	logger.Disable()
-	if os.Getenv("VERIF_C11_REF") != "" {
-		// fresh-process reference: print the hash of every target compiled once
+	if sel := os.Getenv("VERIF_C11_REF"); sel != "" {
+		// fresh-process reference.  "prog": the API programs (no gadget state), one process for all;
+		// otherwise the name of ONE target: a gadget target's reference is its compilation as the
+		// first and only compilation of a process.
 		for _, t := range targets(c.Quick()) {
-			fmt.Printf("REF\t%s\t%s\n", t.name, compileHash(t, t.mk()))
+			if (sel == "prog" && strings.HasPrefix(t.name, "prog:")) || sel == t.name {
+				fmt.Printf("REF\t%s\t%s\n", t.name, compileHash(t, t.mk()))
+			}
 		}
 		os.Exit(0)
 	}
-	c.Rule("targets = one circuit per gadget family that keeps per-compilation state (hints, commitments, lookup tables, range checks, emulated arithmetic, deferred callbacks, multicommit, GKR, Ext2 constant tables, the wire->constraint query with 0..3 missing wires) x builders x compile options, plus the API programs of the C04 generator. (E) every map-range site on the compile path is a choice of order: all k! orders for k<=4 keys (identity/reverse/rotations/adjacent transpositions above), <= 2 sites departing; serialized bytes must be identical in every execution. (H) all histories of <= 3 compilations (same circuit value compiled again, different values in between) against compilations in fresh processes. (S) two compilations under the controlled scheduler with a point at every statement of the global hint registry, preemption bound 2. distinct = (target family, part, verdict / number of orders explored).")
+	c.Rule("targets = one circuit per gadget family that keeps per-compilation state (hints, commitments, lookup tables, range checks, emulated arithmetic, deferred callbacks, multicommit, GKR, Ext2 constant tables, the wire->constraint query with 0..3 missing wires) x builders x compile options, plus the API programs of the C04 generator. (E) every map-range site on the compile path is a choice of order: all k! orders for k<=4 keys (identity/reverse/rotations/adjacent transpositions above), <= 2 sites departing; serialized bytes must be identical in every execution. (H) all histories of <= 3 compilations (same circuit value compiled again, different values in between) against fresh-process references (every gadget target's reference is the first and only compilation of its own process, taken three times); sibling groups (range checks with equal count and total bits but different distributions, emulated multiplication over three 4-limb fields, lookup tables of equal size, neighbouring bit widths, multiplexer sizes, 32/64-bit byte gadgets): all ordered histories over each group. (S) two compilations under the controlled scheduler with a point at every statement of the global hint registry, preemption bound 2. distinct = (target family, part, verdict / number of orders explored).")
 	c.Assume("single-threaded compilation has no other nondeterminism than map iteration order (typed scan lists every such site; none uses time, randomness or pointer order)")
 	ts := targets(c.Quick())
 	if unit, _, ok := vh.WorkerArgs(); ok && unit == "S" {
@@ -316,7 +324,7 @@ func main() {
 	// fresh-process references (three processes; their agreement is part of the check)
 	refs := make([]map[string]string, 3)
 	for i := range refs {
-		refs[i] = freshProcess(c)
+		refs[i] = freshProcess(c, ts)
 	}
 	for name, h := range refs[0] {
 		if strings.HasPrefix(h, "error:") || strings.HasPrefix(h, "panic:") {
@@ -350,26 +358,53 @@ func main() {
 	c.Finish()
 }
 
-func freshProcess(c *vh.Check) map[string]string {
+func freshProcess(c *vh.Check, ts []target) map[string]string {
 	exe, _ := os.Executable()
-	cmd := exec.Command(exe, "-tier", c.Tier)
-	cmd.Env = append(os.Environ(), "VERIF_C11_REF=1")
-	out, err := cmd.Output()
-	if err != nil {
-		c.Fatal("fresh reference process failed: %v", err)
+	run := func(sel string) map[string]string {
+		cmd := exec.Command(exe, "-tier", c.Tier)
+		cmd.Env = append(os.Environ(), "VERIF_C11_REF="+sel)
+		out, err := cmd.Output()
+		if err != nil {
+			c.Fatal("fresh reference process (%s) failed: %v", sel, err)
+		}
+		m := map[string]string{}
+		for _, l := range strings.Split(string(out), "\n") {
+			p := strings.Split(l, "\t")
+			if len(p) == 3 && p[0] == "REF" {
+				m[p[1]] = p[2]
+			}
+		}
+		return m
 	}
-	m := map[string]string{}
-	for _, l := range strings.Split(string(out), "\n") {
-		p := strings.Split(l, "\t")
-		if len(p) == 3 && p[0] == "REF" {
-			m[p[1]] = p[2]
+	var mu sync.Mutex
+	all := run("prog")
+	var single []string
+	for _, t := range ts {
+		if !strings.HasPrefix(t.name, "prog:") {
+			single = append(single, t.name)
 		}
 	}
-	return m
+	c.Par(len(single), func(i int) {
+		m := run(single[i])
+		mu.Lock()
+		for k, v := range m {
+			all[k] = v
+		}
+		mu.Unlock()
+	})
+	for _, n := range single {
+		if _, ok := all[n]; !ok {
+			c.Fatal("no fresh-process reference for %s", n)
+		}
+	}
+	return all
 }
 
 func mapOrders(c *vh.Check, ts []target, ref map[string]string) {
 	for _, t := range ts {
+		if strings.HasPrefix(t.name, "sib:") {
+			continue // sibling circuits repeat the gadgets of the families; they serve the histories
+		}
 		if c.Expired() {
 			c.Cap("internal deadline in map-order exploration")
 			return
@@ -415,7 +450,7 @@ func histories(c *vh.Check, ts []target, ref map[string]string) {
 	// three circuit VALUES per history alphabet: gadget families cache state inside circuit objects
 	pick := []int{}
 	for i, t := range ts {
-		if strings.HasPrefix(t.name, "prog:") {
+		if strings.HasPrefix(t.name, "prog:") || strings.HasPrefix(t.name, "sib:") {
 			continue
 		}
 		if strings.HasSuffix(t.name, "/default") {
@@ -426,6 +461,7 @@ func histories(c *vh.Check, ts []target, ref map[string]string) {
 	if c.Tier == "thorough" {
 		maxLen = 3
 	}
+	defer siblingHistories(c, ts, ref, maxLen)
 	// every family: the SAME circuit object compiled three times (gadgets cache state in circuit fields)
 	for _, i := range pick {
 		obj := ts[i].mk()
